@@ -168,7 +168,14 @@ class Bounds:
                 continue
             szs = sz if isinstance(sz, list) else [sz]
             if any(P.prove_at(off + z - extent, i.block, extra_le=assume, trim=trim) for z in szs): okl.append((i, kind, off, szs[0]))
-            else: bad.append((i, kind, "cannot prove %r <= 0 (offset+size-extent)" % (off + szs[-1] - extent)))
+            else:
+                # the closed-form summary of the callee is too coarse here (e.g. "at most 9 bytes" for a helper that clamps to the
+                # remaining input itself): prove the callee's own accesses under the facts of this call site
+                if i.op == "call" and kind.startswith("call:") and "(via " not in kind and self.mod.functions.get(i.get("callee") or "") is not None and not self.mod.functions[i["callee"]].decl:
+                    try: why = self.prove_in_callee(fn, i, root, off, extent, mode, list(assume))
+                    except Exception: why = "context proof failed"
+                    if why is None: okl.append((i, kind, off, Lin.atom(("ctx", i.get("callee"))))); continue
+                bad.append((i, kind, "cannot prove %r <= 0 (offset+size-extent)" % (off + szs[-1] - extent)))
         return n, bad, okl
 
     # ---------------- context-sensitive fallback ----------------
@@ -203,6 +210,9 @@ class Bounds:
             a = call.ops[j]
             if not a["t"].endswith("*"): continue
             r, o = fi.ptr(a)
+            # the address held by a pointer parameter, in the caller's terms: pointer differences in the callee (end - ptr) become
+            # differences of the caller's offsets when both point into the same object
+            sub[("base", ("arg", j))] = tr(Lin.atom(("base", r)) + o)
             if not o.is_const(): continue
             for (lr, lo, lsz), tok in st.items():
                 if lr != r: continue
